@@ -183,30 +183,37 @@ def write(
         else:
             pass
 
-        # write roots
-        for root in list_roots:
-            write(
-                filepath,
-                root,
-                tree = True,
-                mode = mode
-            )
+        try:
+            # write roots
+            for root in list_roots:
+                write(
+                    filepath,
+                    root,
+                    tree = True,
+                    mode = mode
+                )
 
-        # write nodes
-        for root in dict_roots.values():
-            write(
-                filepath,
-                root,
-                mode = mode
-            )
-        for item in list_rooted_nodes:
-            write(
-                filepath,
-                item,
-                emdpath = item.root.name,
-                tree = False,
-                mode = 'ao'
-            )
+            # write nodes
+            for root in dict_roots.values():
+                write(
+                    filepath,
+                    root,
+                    mode = mode
+                )
+            for item in list_rooted_nodes:
+                write(
+                    filepath,
+                    item,
+                    emdpath = item.root.name,
+                    tree = False,
+                    mode = 'ao'
+                )
+        finally:
+            # unrooted nodes were only placed in a shared root for
+            # writing - hand them back to the caller unrooted
+            for x in list_unrooted_items:
+                if isinstance(x,Node):
+                    x._root = None
         return
 
     # `data` should now be a Node!
@@ -215,9 +222,21 @@ def write(
     # get the root
     root = data._root
     if root is None:
-        added_a_root = True
+        # wrap the unrooted node in a temporary root, write it,
+        # and always hand it back unrooted - also if the write fails
         root = Root(name=data.name+"_root")
         root.add_to_tree(data)
+        try:
+            write(
+                filepath,
+                data,
+                mode = mode,
+                tree = tree,
+                emdpath = emdpath
+            )
+        finally:
+            data._root = None
+        return
     else:
         added_a_root = False
 
